@@ -192,6 +192,20 @@ def sweep(ctx, rep, model, focus):
                                  "text": f"FabOnDisk: {t[1]} {len(junk) // 2}"}]
                         judge(ctx, rep, spec, pristine, ptree, ops2, None, False, batch, pend, focus, flt, "junk-ahead-of-only-fab+offset", lv)
                     break
+        # a box record gone from the GLOBAL Header (the level's count lowered by one, the bound lines of its last box removed) while
+        # the level header and the binary files are intact: not one of the listed faults - whatever the verdict is, an accepted
+        # directory must be readable (C20)
+        hl = ptree["Header"].decode().split("\n")
+        i0 = 2 + len(spec["fields"]) + 8 + nlev + 2
+        for lv in range(nlev):
+            nb = len(spec["levels"][lv])
+            t = hl[i0].split()
+            if nb >= 2 and len(t) == 3:
+                first = i0 + 2 + (nb - 1) * spec["ndims"]
+                ops3 = [{"op": "line_set", "file": "Header", "line": i0, "text": f"{t[0]} {nb - 1} {t[2]}"}] + \
+                       [{"op": "line_delete", "file": "Header", "line": first} for _ in range(spec["ndims"])]
+                judge(ctx, rep, spec, pristine, ptree, ops3, None, False, batch, pend, focus, None, "header-box-record-removed", lv)
+            i0 += 2 + nb * spec["ndims"] + 1
         # level limits: faults above the limit are outside the validated levels
         if nlev > 1:
             for op, lv, fault, cls in ops[:: max(1, len(ops) // 60)]:
